@@ -310,9 +310,18 @@ func buildUnits(quick bool, cp *corpus) []unit {
 	certE := famEntries("cert")
 
 	// (a) G-bytes
+	// The length-3 sweep over asn1.Unmarshal (18 target types, ~1 µs per call
+	// because every mismatch formats an error) is 85 % of its cost: it belongs
+	// to the thorough tier. Quick sweeps length <= 3 over the cryptobyte
+	// readers and length <= 2 over asn1.Unmarshal.
 	add("gbytes/prim/empty", one("", nil), prim)
+	sweep := prim
+	if quick {
+		sweep = cbr
+		add("gbytes/asn1/n<=2", xgen.AllBytes(2), asn)
+	}
 	for f := 0; f < 256; f++ {
-		add(fmt.Sprintf("gbytes/prim/n<=3/first=%02x", f), xgen.AllBytesPrefix(3, byte(f)), prim)
+		add(fmt.Sprintf("gbytes/prim/n<=3/first=%02x", f), xgen.AllBytesPrefix(3, byte(f)), sweep)
 	}
 	for _, fam := range []string{"cert", "spki", "csr", "crl", "key", "ct", "ocsp", "crlset", "onecrl", "sst", "tls"} {
 		add("gbytes/"+fam+"/n<=2", xgen.AllBytes(2), famEntries(fam))
